@@ -49,7 +49,8 @@ class LiveRender:
         shape = self._shape  # read once: another thread may reset it
         if shape is not None:
             _, height = shape
-            return Control("\r" + "\x1b[1A\x1b[2K" * height)
+            # an empty frame still occupies the row the final line feed of stop() left
+            return Control("\r" + "\x1b[1A\x1b[2K" * max(height, 1))
         return Control("")
 
     def __rich_console__(
